@@ -95,6 +95,23 @@ BAD_VALUES = {
     "certificate_compression_receive": [["gzip"]],
     "dc_valid_time": [7 * 24 * 3600 + 1],
 }
+
+
+def _installation_dependent():
+    """compression algorithms this installation cannot perform in one
+    direction must be refused for that direction"""
+    from tlslite.utils.compression import compression_algo_impls as impl
+    for alg in ("brotli", "zstd"):
+        if not impl.get(alg + "_compress"):
+            BAD_VALUES["certificate_compression_send"].append([alg])
+            BAD_VALUES["certificate_compression_send"].append(["zlib", alg])
+        if not impl.get(alg + "_decompress"):
+            BAD_VALUES["certificate_compression_receive"].append([alg])
+            BAD_VALUES["certificate_compression_receive"].append(
+                ["zlib", alg])
+
+
+_installation_dependent()
 COMBOS = [
     ({"minVersion": (3, 3), "maxVersion": (3, 1)}, "min>max version"),
     ({"minKeySize": 4096, "maxKeySize": 2048}, "min>max key size"),
